@@ -124,6 +124,19 @@ struct BearEndpoint : Endpoint {
 			in_hi = out_hi = iobuf.get() + p.buflen;
 		}
 	}
+	// A context reused with other I/O memory: new buffers of the given layout
+	// and size, the old ones are kept allocated (so that a stale region is
+	// reported by the region check, not as a use after free) but are no longer
+	// "caller-supplied memory" for the invariant.  The documentation requires a
+	// reset after this call.
+	std::vector<std::unique_ptr<uint8_t[]>> retired;
+	void rebuffer(const Profile &p)
+	{
+		if (iobuf) retired.push_back(std::move(iobuf));
+		if (ibuf) retired.push_back(std::move(ibuf));
+		if (obuf) retired.push_back(std::move(obuf));
+		setup_buffers(p);
+	}
 	void set_esp_impls()
 	{
 		br_ssl_engine_set_aes_cbc(eng, &br_aes_ct_cbcenc_vtable, &br_aes_ct_cbcdec_vtable);
